@@ -286,6 +286,19 @@ func (c *Ctx) kindsAgree(label, encName, decName string, min int) {
 
 // searchRules: BaseWAL.SearchForEndHeight (shared by C05 and C15).
 func searchRules(c *Ctx) {
+	// a reopened group knows its rotated files again: the search walks from the group's min to max index, which are
+	// restored from the directory when the group is opened (else a restarted node searches the head file only)
+	if og := c.Fn("lib/autofile", "", "OpenGroup"); og != nil {
+		for _, f := range []string{"minIndex", "maxIndex"} {
+			n := 0
+			for _, in := range findInstrs(og, StoreTo(`lib/autofile\.Group\.`+f+`$|^&g\.`+f+`$`)) {
+				if strings.Contains(pathOf(in.(*ssa.Store).Val), ".readGroupInfo(") {
+					n++
+				}
+			}
+			c.Check("F", fnName(og)+"/"+f+" is restored from the files found in the directory", n == 1, og.Pos(), n, "")
+		}
+	}
 	fn := c.Fn("consensus", "BaseWAL", "SearchForEndHeight")
 	if fn == nil {
 		return
